@@ -10,11 +10,12 @@ RULE = ('forced schedules through the public factory callbacks (NetFlowTemplater
         'workers are released one at a time in EVERY order (all k^k index sequences), each running to completion; then data '
         'sets using every announced template / domain are sent sequentially and must decode and carry the announced rate. '
         'expected = the model\'s repaired protocol on the same schedule (nothing lost). non-trivial = a schedule with at '
-        'least two workers; distinct by (mode, k, order)')
+        'least two workers; distinct by (mode, k, order). free-running: 3000 (quick) / 40000 (thorough) rounds per (mode, k in 2..4), a new exporter '
+        'per round, workers lined up at their first template lookup, then follow-up data must decode and carry the announced rate')
 TRUSTED = ['Coq 8.16.1 kernel (coqc)', 'extraction + ocaml/main.ml glue', 'Go harness harness/first.go (parking through the factory callbacks), bin/engine.py',
            'modelled, not verified: utils/pipe.go first-contact block, producer/proto/proto.go getSamplingRateSystem']
 ASSUMPTIONS = ['each of lookup / create-publish / add is atomic (they are single critical sections or single map operations in the code)',
-               'interleavings are forced only at the factory callbacks; the theorem covers all interleavings of the model',
+               'interleavings are forced only at the factory callbacks (the free-running rounds sample the others); the theorem covers all interleavings of the model',
                'a worker not parked within 150 ms is taken to be blocked on the write lock']
 STREAMS = []
 
@@ -44,6 +45,21 @@ def run(chk):
         if o != m:
             chk.record('scopeA', dict(concrete=True, input=a, impl=o, expected=m, pinned_model=p,
                        what='after all workers returned, a template or rate announced at first contact is not visible to a later datagram'), {})
+    # free-running first contact: real concurrency, many rounds, a new exporter per round; the workers are lined
+    # up at their first template lookup (right before the producer looks up / creates the exporter's sampling
+    # system). Covers interleavings the factory callbacks cannot force (two workers past the read-miss before
+    # either takes the write lock).
+    nr = dict(quick=3000, thorough=40000)[chk.tier]
+    stress = ['firststress %s #%x #%x' % (mode, k, nr) for mode in ('samp', 'tmpl') for k in (2, 3, 4)]
+    so = impl_run(chk.harness, stress, timeout=900.0)
+    chk.evals += len(stress) * nr
+    chk.count('free-running rounds', len(stress) * nr)
+    for a, o in zip(stress, so):
+        chk.nontrivial.add(hashlib.sha1(a.encode()).digest()[:8])
+        if o != 'lost #0':
+            chk.record('scopeA', dict(concrete=True, input=a, impl=o, expected='lost #0',
+                       what='free-running first contact: in some rounds a template or rate announced by a worker that had returned was not visible afterwards (racy: replay repeats the rounds)'), {})
+    chk.samples.append(dict(stream='free-running', input=stress[0], impl=so[0]))
     chk.samples.append(dict(stream='forced', input=lines[3], impl=impl[3], repaired_model=mod[3], pinned_model=pin[3]))
     chk.notes.append('pinned-protocol model loses on %d of %d schedules' % (sum(1 for p in pin if p != 'lost #0'), len(pin)))
     return chk.finish(me)
